@@ -36,6 +36,7 @@ for _fsn in ('none', 'opq:uval'):
         target='OriginItem.__init__', props=['C17', 'C14', 'C09'], globals=GC, self_fields={},
         params={'name': 'str', 'parent': OSET, 'origin_reference': 'int', 'kwargs': ({'file_set_number': _fsn} if _fsn != 'none' else {})},
         returns='none', ghost={'rng_calls': ('int', '0'), 'clock_reads': ('int', '0')},
+        requires=(["kwargs['file_set_number'] is not None"] if _fsn != 'none' else []),
         ref_fields={'name': 'str', '_copy_number': 'int', '_origin_reference': 'int?'},
         may_raise=['AnyException', 'ValueError', 'TypeError'],
         ensures=[('file-set-number-present', 'self.file_set_number._value is not None'),
